@@ -261,8 +261,13 @@ class Stmts:
             c = self.cond(s.test, env, B)
             return self.wrap(B, ('if', c, go(env), ('raw', self.EXC_ASSERT)))
         if isinstance(s, ast.Assign):
-            if len(s.targets) != 1: bad(s, 'multiple assignment targets')
+            if len(s.targets) != 1: return self.assign_chain(s, env, go)
             return self.assign(s.targets[0], s.value, s, env, go)
+        if isinstance(s, ast.AugAssign) and isinstance(s.target, ast.Name):
+            # x op= e   is   x = x op e
+            load = ast.copy_location(ast.Name(id=s.target.id, ctx=ast.Load()), s)
+            val = ast.copy_location(ast.BinOp(left=load, op=s.op, right=s.value), s)
+            return self.assign(s.target, val, s, env, go)
         if isinstance(s, ast.Expr) and isinstance(s.value, ast.Call):
             return self.call_stmt(s.value, s, env, go)
         if isinstance(s, ast.If):
@@ -274,6 +279,19 @@ class Stmts:
         if isinstance(s, ast.With):
             return self.with_(s, env, go)
         return self.other_stmt(s, rest, env, k, live)
+
+    def assign_chain(self, s, env, go):
+        """a = b = <value without partial operations>"""
+        B = []
+        t, ty = self.expr(s.value, env, B)
+        if B or not all(isinstance(x, ast.Name) for x in s.targets): bad(s, 'multiple assignment targets')
+        env2 = dict(env)
+        names = [x.id for x in s.targets]
+        for n in names: env2[n] = ty
+        tree = go(env2)
+        for n in reversed(names):
+            tree = ('let', lname(n), t, tree)
+        return tree
 
     def other_stmt(self, s, rest, env, k, live):
         bad(s, f'statement {type(s).__name__}')
